@@ -6,6 +6,9 @@ CONSTANTS
   FixSend = TRUE
   FixReader = FALSE
   Banned = {}
+  Asking = {}
+  AskAnswersInHand = TRUE
+  BufCap = 3
   FixFlushOnStop = TRUE
   MaxResets = 1
   WithStop = TRUE
